@@ -666,7 +666,51 @@ def seq_case(draw, tier):
     names = ALL_OPS + ['insert', 'overwrite', 'set', 'invert', 'reverse', 'rol', 'ror', 'byteswap', 'set_slice_bits', 'replace', 'append']
     steps = draw(st.lists(op_st(names), min_size=n, max_size=n))
     steps = [s for s in steps if not (s['op'] == 'imul' and s['n'] > 3)]
+    if draw(st.integers(0, 5)) == 0:
+        init = ''          # the object receives its whole content through the first in-place operations
+    if draw(st.integers(0, 2)) == 0:
+        # the same few literal strings / values come back as operands again and again (string cache, shared stores)
+        b1, b2 = draw(bits_st(max_len=12, min_len=1)), draw(bits_st(max_len=12, min_len=1))
+        pool = [['promo', 'str_bin', b1], ['promo', 'str_bin', b2], ['cls', 'Bits', b1], ['promo', 'str_bin', b1]]
+        for stp in steps:
+            for key in ('v', 'old', 'new'):
+                if isinstance(stp.get(key), list) and stp[key] and stp[key][0] in ('bits', 'promo', 'cls') and draw(st.booleans()):
+                    stp[key] = draw(st.sampled_from(pool))
     return {'cls': draw(mcls_st), 'init': init, 'steps': steps, 'opt_ba': draw(st.sampled_from([False, False, False, True]))}
+
+
+@st.composite
+def replace_planted_case(draw, tier):
+    """replace() on data in which `old` was planted several times (byte aligned or not, possibly overlapping itself), with windows whose ends fall on,
+    just inside and just outside occurrences"""
+    old_len = draw(st.sampled_from([1, 2, 3, 4, 5, 8, 8, 16, 16, 24, 9, 12]))
+    old = draw(bits_of_len(old_len))
+    aligned = draw(st.booleans())
+    parts, occ, pos = [], [], 0
+    for _ in range(draw(st.integers(1, 6))):
+        fill = draw(bits_of_len(8 * draw(st.integers(0, 3)))) if aligned else draw(bits_st(max_len=20))
+        parts.append(fill)
+        pos += len(fill)
+        occ.append(pos)
+        rep = draw(st.sampled_from([1, 1, 1, 2, 3]))
+        parts.append(old * rep)
+        pos += old_len * rep
+    parts.append(draw(bits_st(max_len=12)))
+    init = ''.join(parts)
+    n = len(init)
+    if draw(st.integers(0, 3)) == 0:
+        win = ['p', ['n'], ['n']]
+    else:
+        ds = [0, 1, -1, old_len - 1, old_len, old_len + 1, 8, 4, -old_len]
+        s_ = min(max(draw(st.sampled_from(occ)) + draw(st.sampled_from([0, 0, 1, -1, 8, -8, old_len - 1])), 0), n)
+        e_ = min(max(draw(st.sampled_from(occ)) + draw(st.sampled_from(ds)), s_), n)
+        if draw(st.integers(0, 3)) == 0:
+            s_ = 0
+        win = ['w', s_, e_ - s_, 5]
+    new = draw(st.sampled_from([['bits', ''], ['bits', old], ['bits', old[::-1]], ['self']])) if draw(st.integers(0, 3)) == 0 else draw(operand_spec(max_len=26))
+    op = {'op': 'replace', 'old': ['bits', old] if draw(st.integers(0, 4)) else ['promo', 'str_bin', old], 'new': new, 'win': win,
+          'count': draw(st.sampled_from([None, None, None, 0, 1, 2, 5])), 'ba': draw(st.sampled_from([None, False, True, True]))}
+    return {'cls': draw(mcls_st), 'init': init, 'steps': [op], 'opt_ba': draw(st.sampled_from([False, False, False, True]))}
 
 
 def selftest():
@@ -692,6 +736,7 @@ def selftest():
 
 
 SUBCHECKS = [Sub('C03.' + fam, run, strategy=single_case(names), examples={'quick': 5000, 'thorough': 80000}) for fam, names in FAMILIES.items()]
+SUBCHECKS.append(Sub('C03.replace_planted', run, strategy=replace_planted_case, examples={'quick': 5000, 'thorough': 80000}))
 SUBCHECKS.append(Sub('C03.sequence', run, strategy=seq_case, examples={'quick': 4000, 'thorough': 50000}))
 
 for _s in SUBCHECKS:
